@@ -158,16 +158,22 @@ def parseLOp (t : String) : Option LOp :=
   | ["div_pow2_assign", d, bits] => some (.divPow2Assign (nat! d) (nat! bits))
   | ["rescale", d, k, a] => some (.rescale (nat! d) (nat! k) (nat! a))
   | ["rescale_assign", d, k] => some (.rescaleAssign (nat! d) (nat! k))
+  | ["align", a, b] => some (.align (nat! a) (nat! b))
   | _ => none
 
 def LOp.dstSlot : LOp → Nat
   | .add _ d _ _ | .addAssign _ d _ | .neg d _ | .negAssign d | .mulPow2 d _ _ | .mulPow2Assign d _
-  | .divPow2 d _ _ | .divPow2Assign d _ | .rescale d _ _ | .rescaleAssign d _ => d
+  | .divPow2 d _ _ | .divPow2Assign d _ | .rescale d _ _ | .rescaleAssign d _ | .align d _ => d
 
 def showSlot (p : DPool) (d : Nat) : String :=
   match p[d]? with
   | some c => showG c.g
   | none => "-"
+
+/-- the limbs printed after a call: the destination slot; both slots for `align` -/
+def showDst (p : DPool) : LOp → String
+  | .align a b => showSlot p a ++ "/" ++ showSlot p b
+  | op => showSlot p (LOp.dstSlot op)
 
 /-- the data-path run: outcome and metadata from the data model itself (`dstep`; its metadata transition is the
 one of `stepR`), continuing after `Err` with the pool the failed call leaves -/
@@ -178,10 +184,10 @@ def runData (env : Env) (N : Nat) : DPool → List String → List String → Li
     | none => ("bad-op" :: acc).reverse
     | some op =>
       match dstep env N pool op with
-      | .ok p => runData env N p rest (("ok@" ++ showPool p.cts ++ "#" ++ showSlot p (LOp.dstSlot op)) :: acc)
+      | .ok p => runData env N p rest (("ok@" ++ showPool p.cts ++ "#" ++ showDst p op) :: acc)
       | .err e =>
         let p := dstepErrPool env N pool op
-        runData env N p rest (("err:" ++ e ++ "@" ++ showPool p.cts ++ "#" ++ showSlot p (LOp.dstSlot op)) :: acc)
+        runData env N p rest (("err:" ++ e ++ "@" ++ showPool p.cts ++ "#" ++ showDst p op) :: acc)
       | .panic c => (("panic:" ++ c) :: acc).reverse
 
 def handle (ts : List String) : String :=
